@@ -278,6 +278,15 @@ func TestVerifC18Conc(t *testing.T) {
 
 		build := func() vsched.Scenario { return c18sBuild(env, s) }
 
+		if os.Getenv("VERIF_C18S_TRACE") != "" { // tuning aid only; never set by run.sh: the scheduling points of the default schedule
+			sc := build()
+			x := vsched.Run(vsched.Options{}, sc.Roots...)
+
+			for k, p := range x.Points() {
+				t.Logf("%s point %d: thread %d %s (enabled %d)", s.name, k, p.Thread, p.Kind, p.NEnabled)
+			}
+		}
+
 		if rid, rp := r.Replaying(); rp {
 			k := strings.LastIndex(rid, "#")
 			if k < 0 || rid[:k] != id {
